@@ -335,3 +335,89 @@ theorem coordOf_block (kss : List (List Key)) (rest : List Key) (c : List Nat)
       exact coordOf_append_right K _ _ _ k hlK hkK
 
 end PydraModel.WfState
+
+namespace PydraModel.WfState
+open Spec
+
+/-! ### combiner grouping: dictionary inclusion = coordinate restriction -/
+
+theorem Dict.set_append_new {κ : Type} [DecidableEq κ] (d : Dict κ) (k : κ) (v : Nat) (h : ∀ e ∈ d, e.1 ≠ k) :
+    Dict.set d k v = d ++ [(k, v)] := by
+  induction d with
+  | nil => rfl
+  | cons e d ih =>
+    obtain ⟨k', v'⟩ := e
+    have hk : ¬ k' = k := h (k', v') (by simp)
+    simp only [Dict.set, hk, if_false, List.cons_append]
+    rw [ih (fun e he => h e (List.mem_cons_of_mem _ he))]
+
+/-- With duplicate-free keys, `dict(zip(keys, vals))` is the zipped list itself. -/
+theorem mkDictAux_nodup {κ : Type} [DecidableEq κ] (acc : Dict κ) (ks : List κ) (vs : List Nat)
+    (hnd : ks.Nodup) (hdis : ∀ e ∈ acc, e.1 ∉ ks) : mkDictAux acc ks vs = acc ++ List.zip ks vs := by
+  induction ks generalizing acc vs with
+  | nil => cases vs <;> simp [mkDictAux]
+  | cons k ks ih =>
+    cases vs with
+    | nil => simp [mkDictAux]
+    | cons v vs =>
+      simp only [mkDictAux, List.zip_cons_cons]
+      have hk : ∀ e ∈ acc, e.1 ≠ k := fun e he hek => hdis e he (hek ▸ List.mem_cons_self)
+      rw [Dict.set_append_new acc k v hk, ih _ vs (List.nodup_cons.mp hnd).2]
+      · simp
+      · intro e he
+        rcases List.mem_append.mp he with he | he
+        · exact fun hm => hdis e he (List.mem_cons_of_mem _ hm)
+        · simp only [List.mem_singleton] at he
+          subst he
+          exact (List.nodup_cons.mp hnd).1
+
+theorem mkDict_nodup {κ : Type} [DecidableEq κ] (ks : List κ) (vs : List Nat) (hnd : ks.Nodup) :
+    mkDict ks vs = List.zip ks vs := by
+  unfold mkDict
+  rw [mkDictAux_nodup [] ks vs hnd (by simp)]
+  rfl
+
+/-- Reading key `k` of the dictionary of a job = the job's coordinate on axis `k`. -/
+theorem mkDict_get?_coordOf (keys : List Key) (c : List Nat) (hl : keys.length = c.length) (hnd : keys.Nodup)
+    (k : Key) (hk : k ∈ keys) : (mkDict keys c).get? k = some (coordOf keys c k) := by
+  rw [mkDict_nodup keys c hnd]
+  induction keys generalizing c with
+  | nil => simp at hk
+  | cons a keys ih =>
+    cases c with
+    | nil => simp at hl
+    | cons x c =>
+      simp only [List.zip_cons_cons, Dict.get?, coordOf]
+      by_cases ha : a = k
+      · simp [ha]
+      · simp only [ha, if_false]
+        exact ih c (by simpa using hl) (List.nodup_cons.mp hnd).2 (by
+          rcases List.mem_cons.mp hk with h | h
+          · exact absurd h.symm ha
+          · exact h)
+
+/-- COMBINER GROUPING.  The code selects the jobs of a group by dictionary inclusion
+    (`set(states_ind[j].items()) ⊇ set(states_ind_final[i].items())`, `LazyOutField._get_value.group_values`); the
+    reference selects them by restricting the job's coordinates to the remaining axes.  With duplicate-free keys (no
+    shared origin) the two tests coincide, for every job and every group. -/
+theorem C03_group_test (keys keysF : List Key) (c fc : List Nat)
+    (hl : keys.length = c.length) (hlF : keysF.length = fc.length)
+    (hnd : keys.Nodup) (hndF : keysF.Nodup) (hsub : ∀ k ∈ keysF, k ∈ keys) :
+    Dict.subset (mkDict keysF fc) (mkDict keys c) = (keysF.map (coordOf keys c) == fc) := by
+  rw [mkDict_nodup keysF fc hndF]
+  unfold Dict.subset
+  induction keysF generalizing fc with
+  | nil =>
+    cases fc with
+    | nil => rfl
+    | cons x fc => simp at hlF
+  | cons k keysF ih =>
+    cases fc with
+    | nil => simp at hlF
+    | cons x fc =>
+      have hk := mkDict_get?_coordOf keys c hl hnd k (hsub k (by simp))
+      simp only [List.zip_cons_cons, List.all_cons, List.map_cons, hk]
+      rw [ih fc (by simpa using hlF) (List.nodup_cons.mp hndF).2 (fun k' hk' => hsub k' (List.mem_cons_of_mem _ hk'))]
+      simp only [List.cons_beq_cons, Option.some_beq_some]
+
+end PydraModel.WfState
